@@ -324,6 +324,18 @@ class ObjGen:
         for c in self.order:
             if any(m["name"] == "made" for m in self.classes[c]["methods"]):
                 body.append(Echo(SCall(c, "made")))
+            # static fields are shared per declaring class, whichever class name they are reached through
+            stat = [f["n"] for f in self.classes[c]["fields"] if f["static"]]
+            subs = [d for d in self.order if d != c and c in self.ancestors(d)]
+            if stat and subs and r.random() < 0.7:
+                d = r.choice(subs)
+                body.append(Echo(SFld(d, stat[0])))
+                body.append(Expr(SFAsg(d, stat[0], I(r.randint(40, 49)))))
+                body.append(Echo(SFld(c, stat[0])))
+                body.append(Echo(Bin("+", SFld(d, stat[0]), SFld(r.choice(subs), stat[0]))))
+                dstat = [f["n"] for f in self.classes[d]["fields"] if f["static"]]
+                if dstat:
+                    body.append(Echo(SFld(d, dstat[0])))
         if self.gen_classes:
             body += self.generic_use()
         body.append(Echo(S("end of main")))
